@@ -156,7 +156,12 @@ func (d *dom) px(p string) string {
 func strs(class func(string) string, vs ...string) []argv {
 	var out []argv
 	for _, v := range vs {
-		out = append(out, argv{Class: class(v), Show: fmt.Sprintf("%q", v), Go: fmt.Sprintf("%q", v), V: v})
+		a := argv{Class: class(v), Show: fmt.Sprintf("%q", v), Go: fmt.Sprintf("%q", v), V: v}
+		if v == longName {
+			a.Show, a.Go = `300*"n"`, `strings.Repeat("n", 300)`
+		}
+
+		out = append(out, a)
 	}
 
 	return out
